@@ -113,6 +113,8 @@ pub struct LogEntry {
 
 enum ConnCmd {
     Send(Vec<u8>),
+    /// a delayed SetKeyspace result: the connection's keyspace changes when it is written
+    SendKs(Vec<u8>, String),
     SendThenClose(Vec<u8>, bool),
     Close(bool),
 }
@@ -455,6 +457,12 @@ async fn connection(inner: Arc<Inner>, node: usize, mut stream: TcpStream, peer:
                         } else {
                             log_push(&inner, entry(&inner, &st, LogKind::RawWritten(bytes.len())));
                         }
+                    }
+                    Some(ConnCmd::SendKs(bytes, ks)) => {
+                        if stream.write_all(&bytes).await.is_err() { break 'outer; }
+                        let _ = stream.flush().await;
+                        st.keyspace = Some(ks);
+                        log_push(&inner, entry(&inner, &st, LogKind::Response(i16::from_be_bytes([bytes[2], bytes[3]]), bytes[4])));
                     }
                     Some(ConnCmd::SendThenClose(bytes, rst)) => {
                         let _ = stream.write_all(&bytes).await;
@@ -830,11 +838,16 @@ fn handle(inner: &Arc<Inner>, st: &mut ConnState, ctx: &ReqCtx, frame: &ReqFrame
             let _ = tx.send(ConnCmd::Send(encode_frame(&env, &body)));
         }
         Action::ReplyAfter(d, body) => {
-            note_keyspace(&body, st);
             let tx = tx.clone();
             tokio::spawn(async move {
                 tokio::time::sleep(d).await;
-                send(&tx, stream, body);
+                // a delayed SetKeyspace counts as acknowledged when it is written
+                if let RespBody::Result(ResultBody::SetKeyspace(k)) = &body {
+                    let env = FrameEnv { stream, ..Default::default() };
+                    let _ = tx.send(ConnCmd::SendKs(encode_frame(&env, &body), k.clone()));
+                } else {
+                    send(&tx, stream, body);
+                }
             });
         }
         Action::Hold(id) => {
